@@ -252,7 +252,9 @@ func TestCheck(t *testing.T) {
 			"original messages; it is run on TWO agents (default first-chunk checker with contract-conforming chunkings; custom full-scan "+
 			"StreamToolCallChecker with arbitrary chunkings; ChatModel or ToolCallingChatModel wiring), each agent 2-3 times sequentially "+
 			"(Generate and Stream). Every run is compared with a plain ReAct loop simulator (inputs of every model call, tool invocations per round, "+
-			"result, step-limit error) and Generate with concat(Stream). Six workloads by case index: classic (44 %); rd (12 %: marked calls without / with "+
+			"result, step-limit error) and Generate with concat(Stream). Seven workloads by case index: classic (40 %); embed (4 %: the agent's exported graph, or a Lambda calling the agent, inside 1-2 levels of "+
+			"Chain / Graph / Workflow, the outer runnable called with Invoke / Stream / Collect / Transform and the option of react.WithMessageFuture given to the OUTER call, two outer runs overlapping under forced gate orders: "+
+			"the run = the reference, the future = the messages of the agent's run); rd (12 %: marked calls without / with "+
 			"duplicate ids at every position of 1-5 calls, multi-chunk marked tools); ctx (8 %: custom checkers that read their context, constructor context "+
 			"with own values / cancelled); overlap (16 %: 2-4 runs of ONE agent with own inputs and scripts overlapping in time under a PRNG gate order forced "+
 			"inside the model and the tools, each run judged on its own); future (12 %: runs with react.WithMessageFuture; tools / model / modifier built on graphs, chains, workflows, "+
@@ -293,6 +295,9 @@ func TestCheck(t *testing.T) {
 	rep.Require("resume_histories_with_interrupt", 20)
 	rep.Require("resume_interrupts_extracted", 50)
 	rep.Require("resume_histories_host", 5)
+	rep.Require("embed_runs_with_future", 30)
+	rep.Require("embed_messages_compared", 50)
+	rep.Require("embed_overlap_groups_judged", 5)
 
 	n := int64(cfg.Pick(1500, 10000)) // cases per shard
 	rep.Cases(n, func(idx int64, rng *mon.Rand) {
@@ -307,8 +312,10 @@ func TestCheck(t *testing.T) {
 		defer func() { rep.Count("wall_ms_"+kind, time.Since(t0).Milliseconds()) }() // evidence only
 		var c *caseSpec
 		switch k := idx % 25; {
-		case k < 11:
+		case k < 10:
 			c = generate(rng)
+		case k < 11:
+			c = generateEmbed(rng)
 		case k < 14:
 			c = generateRD(rng)
 		case k < 16:
@@ -341,6 +348,12 @@ func TestCheck(t *testing.T) {
 		}
 		if c.Kind == "future" {
 			if runFuture(rep, c) {
+				rep.NonTrivial(c.digest())
+			}
+			return
+		}
+		if c.Kind == "embed" {
+			if runEmbed(rep, c) {
 				rep.NonTrivial(c.digest())
 			}
 			return
